@@ -165,12 +165,10 @@ fn check_scn(scn: &Scn, rep: &mut RunReport) -> Result<Option<Fail>, String> {
         if has_faults {
             if reached {
                 rep.bump("fault.partial.reached", 1);
+                // "reached => error" is C08's clause, not C19's ("an error ONLY in renders that reach
+                // it"): counted, not reported.
                 if scn.strict && outs[0].is_ok() {
-                    return Ok(Some((
-                        i,
-                        "I3-fault-swallowed".into(),
-                        format!("call #{i} {} reached an absent/corrupt partial ({:?}) but rendered {}", call.show(), faulty_names, outs[0].show()),
-                    )));
+                    rep.bump("probe.reached_faulty_partial_but_ok", 1);
                 }
             } else {
                 rep.bump("fault.partial.dead_path", 1);
